@@ -11,9 +11,11 @@ CONSTANTS
   SubnetCounts = {4}
   Targets = {1, 2}
   Roots = {1, 2, 3}
-  HVals = {0, 1, 2, 3}
+  HVals = {0, 1}
   HMod = 840
   MaxSched = 1
+  FaultKinds = {"sel", "root", "cp", "selerr", "rooterr", "cperr"}
+  Deviation = "none"
   MaxFired = 2
   ScenLen = 10
   SetupLen = 3
